@@ -104,7 +104,28 @@ FormsOf(fam) ==
            [n |-> "concat", vars |-> 1, src |-> E(<<"QUOT", "s", "QUOT", " ", "+", " ", "a">>)],
            [n |-> "forval", vars |-> 1, src |-> E(<<"for", " ", "(", "v", ")", " ", "in", " ", "[", "a", "]", " ", "LBR", " ", "%>", "<%=", " ", "v", " ", "%>", "<%", " ", "RBR">>)] }
 
-Forms == FormsOf(Family)
+\* ---- family "nested": expression forms composed to depth two, outer(a := (inner(a, c)), b); explored by simulation
+XForms ==
+  { [n |-> "x:" \o Ops[i], ex |-> <<"a", " ">> \o OpToks(Ops[i]) \o <<" ", "b">>] : i \in 1..Len(Ops) }
+  \cup { [n |-> "x:not", ex |-> <<"!", "a">>], [n |-> "x:idx", ex |-> <<"a", "[", "b", "]">>], [n |-> "x:idx0", ex |-> <<"a", "[", "0", "]">>],
+         [n |-> "x:field", ex |-> <<"a", ".", "Name">>], [n |-> "x:kid", ex |-> <<"a", ".", "Kid">>], [n |-> "x:kids", ex |-> <<"a", ".", "Kids">>],
+         [n |-> "x:method", ex |-> <<"a", ".", "Hello", "(", ")">>], [n |-> "x:call0", ex |-> <<"a", "(", ")">>], [n |-> "x:call1", ex |-> <<"a", "(", "b", ")">>],
+         [n |-> "x:len", ex |-> <<"len", "(", "a", ")">>], [n |-> "x:raw", ex |-> <<"raw", "(", "a", ")">>], [n |-> "x:json", ex |-> <<"toJSON", "(", "a", ")">>],
+         [n |-> "x:arr", ex |-> <<"[", "a", ",", " ", "b", "]">>], [n |-> "x:hash", ex |-> <<"LBR", "k", ":", " ", "a", "RBR">>],
+         [n |-> "x:trunc", ex |-> <<"truncate", "(", "a", ",", " ", "LBR", "size", ":", " ", "b", "RBR", ")">>], [n |-> "x:cap", ex |-> <<"capitalize", "(", "a", ")">>],
+         [n |-> "x:until", ex |-> <<"until", "(", "a", ")">>], [n |-> "x:range", ex |-> <<"range", "(", "a", ",", " ", "b", ")">>],
+         [n |-> "x:group", ex |-> <<"groupBy", "(", "b", ",", " ", "a", ")">>], [n |-> "x:id", ex |-> <<"a">>] }
+RECURSIVE Subst(_, _, _)
+Subst(ts, v, repl) == IF ts = <<>> THEN <<>> ELSE (IF Head(ts) = v THEN repl ELSE <<Head(ts)>>) \o Subst(Tail(ts), v, repl)
+Nest(o, i) == Subst(o.ex, "a", <<"(">> \o Subst(i.ex, "b", <<"c">>) \o <<")">>)
+\* the composed expression as an output tag, as a condition, and as a loop's iterable
+NestedForms ==
+  UNION { { [n |-> "emit " \o o.n \o " of " \o i.n, vars |-> 3, src |-> E(Nest(o, i))],
+            [n |-> "cond " \o o.n \o " of " \o i.n, vars |-> 3, src |-> E(<<"if", " ", "(">> \o Nest(o, i) \o <<")", " ", "LBR", " ", "%>", "T", "<%", " ", "RBR">>)],
+            [n |-> "iter " \o o.n \o " of " \o i.n, vars |-> 3,
+             src |-> E(<<"for", " ", "(", "v", ")", " ", "in", " ">> \o Nest(o, i) \o <<" ", "LBR", " ", "%>", "<%=", " ", "v", " ", "%>", "<%", " ", "RBR">>)] } : o \in XForms, i \in XForms }
+
+Forms == IF Family = "nested" THEN NestedForms ELSE FormsOf(Family)
 
 VARIABLES form, ks      \* the form and the kinds chosen so far for a, b, c
 vars == <<form, ks>>
